@@ -23,7 +23,7 @@ import (
 //     constant with its value, or "v" for anything else) that is invariant under negating the
 //     comparison together with its branches and under swapping its operands:
 //     x<y and x>=y are S(x,y); x>y and x<=y are S(y,x); == and != are E(..);
-//   - every math.IsNaN / math.IsInf test;
+//   - every math.IsNaN / math.IsInf test and every staleness-marker test (value.IsStaleNaN);
 //   - the number of float multiplications and divisions (additions and subtractions are not counted:
 //     moving an accumulation into a helper that returns a partial sum changes their number);
 //   - every reference to a function of package math (simpleFunc(math.Abs));
@@ -44,31 +44,35 @@ type refPair struct {
 	repoPkg  string // module-relative package
 	repoFunc string // function name, "Recv.Method", or "@key" for the func literal stored under Funcs[key]
 	refFunc  string // function name or "Recv.Method" in the reference package
+	stop     string // comma-separated helpers of the reference that are not entered (compared by another rule)
 }
 
 var refPairs = []refPair{
-	{"range", "execution/function", "extrapolatedRate", "extrapolatedRate"},
-	{"range", "execution/function", "instantValue", "instantValue"},
-	{"range", "execution/function", "avgOverTime", "funcAvgOverTime"},
-	{"range", "execution/function", "sumOverTime", "funcSumOverTime"},
-	{"range", "execution/function", "stddevOverTime", "funcStddevOverTime"},
-	{"range", "execution/function", "stdvarOverTime", "funcStdvarOverTime"},
-	{"range", "execution/function", "maxOverTime", "funcMaxOverTime"},
-	{"range", "execution/function", "minOverTime", "funcMinOverTime"},
-	{"range", "execution/function", "changes", "funcChanges"},
-	{"range", "execution/function", "resets", "funcResets"},
-	{"range", "execution/function", "deriv", "funcDeriv"},
-	{"range", "execution/function", "linearRegression", "linearRegression"},
-	{"range", "execution/function", "KahanSumInc", "kahanSumInc"},
-	{"instant", "execution/function", "bucketQuantile", "bucketQuantile"},
-	{"instant", "execution/function", "coalesceBuckets", "coalesceBuckets"},
-	{"instant", "execution/function", "ensureMonotonic", "ensureMonotonic"},
-	{"instant", "execution/function", "buckets.Less", "buckets.Less"},
-	{"agg", "execution/aggregate", "quantile", "quantile"},
-	{"agg", "execution/aggregate", "convertibleToInt64", "convertibleToInt64"},
-	{"hints", "execution", "getTimeRangesForVectorSelector", "Engine.getTimeRangesForSelector"},
-	{"range", "execution/scan", "selectPoints", "evaluator.matrixIterSlice"},
-	{"select", "execution/scan", "selectPoint", "evaluator.vectorSelectorSingle"},
+	{"range", "execution/function", "extrapolatedRate", "extrapolatedRate", ""},
+	{"range", "execution/function", "instantValue", "instantValue", ""},
+	{"range", "execution/function", "avgOverTime", "funcAvgOverTime", ""},
+	{"range", "execution/function", "sumOverTime", "funcSumOverTime", ""},
+	{"range", "execution/function", "stddevOverTime", "funcStddevOverTime", ""},
+	{"range", "execution/function", "stdvarOverTime", "funcStdvarOverTime", ""},
+	{"range", "execution/function", "maxOverTime", "funcMaxOverTime", ""},
+	{"range", "execution/function", "minOverTime", "funcMinOverTime", ""},
+	{"range", "execution/function", "changes", "funcChanges", ""},
+	{"range", "execution/function", "resets", "funcResets", ""},
+	{"range", "execution/function", "deriv", "funcDeriv", ""},
+	{"range", "execution/function", "linearRegression", "linearRegression", ""},
+	{"range", "execution/function", "KahanSumInc", "kahanSumInc", ""},
+	{"instant", "execution/function", "bucketQuantile", "bucketQuantile", ""},
+	{"instant", "execution/function", "coalesceBuckets", "coalesceBuckets", ""},
+	{"instant", "execution/function", "ensureMonotonic", "ensureMonotonic", ""},
+	{"instant", "execution/function", "buckets.Less", "buckets.Less", ""},
+	{"agg", "execution/aggregate", "quantile", "quantile", ""},
+	{"agg", "execution/aggregate", "convertibleToInt64", "convertibleToInt64", ""},
+	{"hints", "execution", "getTimeRangesForVectorSelector", "Engine.getTimeRangesForSelector", ""},
+	{"range", "execution/scan", "selectPoints", "evaluator.matrixIterSlice", ""},
+	{"select", "execution/scan", "selectPoint", "evaluator.vectorSelectorSingle", ""},
+	// the per-sample loop of a vector-scalar operation: the operation itself (vectorElemBinop) is a table
+	// entry in the port and compared by R-OPTABLE
+	{"binary", "execution/binary", "scalarOperator.Next", "evaluator.VectorscalarBinop", "vectorElemBinop"},
 }
 
 func init() {
@@ -79,6 +83,8 @@ func init() {
 		Doc: "the range-vector window selection (scan.selectPoints against evaluator.matrixIterSlice) and every range-function kernel and helper: " + refDoc})
 	register(&Rule{ID: "R-REFPORT-INSTANT", Min: 25, Run: func(p *core.Program) []core.Obligation { return ruleRefPort(p, "R-REFPORT-INSTANT", "instant") },
 		Doc: "every instant-function kernel and the histogram quantile helpers: " + refDoc})
+	register(&Rule{ID: "R-REFPORT-BINARY", Min: 1, Run: func(p *core.Program) []core.Obligation { return ruleRefPort(p, "R-REFPORT-BINARY", "binary") },
+		Doc: "the per-sample loop of a vector-scalar operation (binary.scalarOperator.Next against evaluator.VectorscalarBinop, the operation itself excluded: R-OPTABLE compares the operation tables): " + refDoc})
 	register(&Rule{ID: "R-REFPORT-HINTS", Min: 1, Run: func(p *core.Program) []core.Obligation { return ruleRefPort(p, "R-REFPORT-HINTS", "hints") },
 		Doc: "the time range of a storage select (execution.getTimeRangesForVectorSelector) is derived with the kinds of integer arithmetic of the reference's getTimeRangesForSelector only: start and end minus look-back, range and offset - no rounding, alignment or scaling of the hinted range"})
 	register(&Rule{ID: "R-REFPORT-AGG", Min: 5, Run: func(p *core.Program) []core.Obligation {
@@ -101,6 +107,9 @@ func init() {
 var refAllow = map[string]map[string]int{
 	// the port divides the range in milliseconds by 1000 where the reference calls Duration.Seconds()
 	"extrapolatedRate": {"A/": 1},
+	// the port reads the scalar operand from a stream that may have no sample at a step and substitutes NaN
+	// (the reference evaluates the scalar expression, which yields NaN itself)
+	"evaluator.VectorscalarBinop": {"M:NaN": 1},
 }
 
 type refSig struct {
@@ -142,10 +151,51 @@ type refWalker struct {
 	decls map[*types.Func]*ast.FuncDecl
 	seen  map[*types.Func]bool
 	sig   *refSig
+	// module: the other packages of the analysed module, by path: a call of (or reference to) one of their
+	// functions is followed like a package-local helper (nil for the reference side)
+	module map[string]*packages.Package
+	subs   map[string]*refWalker
+	// order: the package-level helpers called, in the order of their first call (depth first)
+	order *[]string
+}
+
+// other returns the walker (sharing signature and visited set) for another package of the module.
+func (w *refWalker) other(path string) *refWalker {
+	if w.module == nil || w.module[path] == nil || !strings.HasPrefix(path, core.Module) {
+		return nil
+	}
+	if w.subs == nil {
+		w.subs = map[string]*refWalker{}
+	}
+	if sw, ok := w.subs[path]; ok {
+		return sw
+	}
+	sw := newRefWalker(w.module[path])
+	sw.seen, sw.sig, sw.module, sw.subs, sw.order = w.seen, w.sig, w.module, w.subs, w.order
+	w.subs[path] = sw
+	return sw
+}
+
+// follow enters the declaration of fo once: a helper of this package or of another package of the module.
+func (w *refWalker) follow(fo *types.Func) {
+	if fo == nil || fo.Pkg() == nil || w.seen[fo] {
+		return
+	}
+	tw := w
+	if fo.Pkg() != w.pk.Types {
+		tw = w.other(fo.Pkg().Path())
+		if tw == nil {
+			return
+		}
+	}
+	if fd := tw.decls[fo]; fd != nil && fd.Body != nil {
+		w.seen[fo] = true
+		tw.walk(fd.Body)
+	}
 }
 
 func newRefWalker(pk *packages.Package) *refWalker {
-	w := &refWalker{pk: pk, decls: map[*types.Func]*ast.FuncDecl{}, seen: map[*types.Func]bool{}, sig: &refSig{elems: map[string]int{}, consts: map[string]bool{}, intOps: map[string]bool{}}}
+	w := &refWalker{pk: pk, decls: map[*types.Func]*ast.FuncDecl{}, seen: map[*types.Func]bool{}, sig: &refSig{elems: map[string]int{}, consts: map[string]bool{}, intOps: map[string]bool{}}, order: &[]string{}}
 	for _, f := range pk.Syntax {
 		for _, d := range f.Decls {
 			if fd, ok := d.(*ast.FuncDecl); ok {
@@ -262,6 +312,20 @@ func (w *refWalker) walk(body ast.Node) {
 					w.sig.elems[fmt.Sprintf("%sE(%s,%s)", pre, l, r)]++
 				}
 			}
+		case *ast.ReturnStmt:
+			// a function handed back as a value (return kahanSum, nil)
+			for _, r := range x.Results {
+				var ro types.Object
+				switch f := r.(type) {
+				case *ast.Ident:
+					ro = info.Uses[f]
+				case *ast.SelectorExpr:
+					ro = info.Uses[f.Sel]
+				}
+				if rf, ok := ro.(*types.Func); ok {
+					w.follow(rf)
+				}
+			}
 		case *ast.AssignStmt:
 			if len(x.Lhs) == 1 && isInt64Basic(info.TypeOf(x.Lhs[0])) && x.Tok != token.ASSIGN && x.Tok != token.DEFINE {
 				w.sig.intOps[strings.TrimSuffix(x.Tok.String(), "=")] = true
@@ -295,6 +359,19 @@ func (w *refWalker) walk(body ast.Node) {
 			if fo.Pkg().Path() == "math" && (fo.Name() == "IsNaN" || fo.Name() == "IsInf") {
 				w.sig.elems["math."+fo.Name()]++
 			}
+			if fo.Pkg().Path() == pkgValue && fo.Name() == "IsStaleNaN" && len(x.Args) == 1 {
+				// a staleness test is a decision on a sample, like a NaN test (the test of a native
+				// histogram's sum is not ported: the repository rejects native histograms)
+				histogram := false
+				if se, ok := x.Args[0].(*ast.SelectorExpr); ok {
+					if t := info.TypeOf(se.X); t != nil && strings.Contains(t.String(), "Histogram") {
+						histogram = true
+					}
+				}
+				if !histogram {
+					w.sig.elems["value.IsStaleNaN"]++
+				}
+			}
 			// a package function handed over as a value (simpleFunc(math.Abs), aggrOverTime(..., f))
 			for _, a := range x.Args {
 				var ao types.Object
@@ -304,19 +381,22 @@ func (w *refWalker) walk(body ast.Node) {
 				case *ast.SelectorExpr:
 					ao = info.Uses[f.Sel]
 				}
-				if af, ok := ao.(*types.Func); ok && af.Pkg() == w.pk.Types && !w.seen[af] {
-					if fd := w.decls[af]; fd != nil && fd.Body != nil {
-						w.seen[af] = true
-						w.walk(fd.Body)
+				if af, ok := ao.(*types.Func); ok {
+					w.follow(af)
+				}
+			}
+			if fo.Pkg() == w.pk.Types && fo.Type().(*types.Signature).Recv() == nil {
+				known := false
+				for _, n := range *w.order {
+					if n == fo.Name() {
+						known = true
 					}
 				}
-			}
-			if fo.Pkg() == w.pk.Types && !w.seen[fo] {
-				if fd := w.decls[fo]; fd != nil && fd.Body != nil {
-					w.seen[fo] = true
-					w.walk(fd.Body)
+				if !known {
+					*w.order = append(*w.order, fo.Name())
 				}
 			}
+			w.follow(fo)
 		}
 		return true
 	})
@@ -395,7 +475,7 @@ func ruleRefPort(p *core.Program, rule, class string) []core.Obligation {
 				if sig, ok := refFuncs[name]; ok && len(sig.argTypes) > 0 && strings.HasSuffix(sig.argTypes[0], "ValueTypeMatrix") {
 					c = "range"
 				}
-				pairs = append(pairs, refPair{c, "execution/function", "@" + name, rf})
+				pairs = append(pairs, refPair{c, "execution/function", "@" + name, rf, ""})
 			}
 		}
 	}
@@ -419,6 +499,14 @@ func ruleRefPort(p *core.Program, rule, class string) []core.Obligation {
 			continue
 		}
 		wa, wb := newRefWalker(rp), newRefWalker(ref)
+		wa.module = p.ByPath
+		for _, name := range strings.Split(pr.stop, ",") {
+			for fo := range wb.decls {
+				if name != "" && fo.Name() == name {
+					wb.seen[fo] = true
+				}
+			}
+		}
 		wa.walkEntry(a)
 		wb.walkEntry(b)
 		var diff []string
@@ -437,7 +525,7 @@ func ruleRefPort(p *core.Program, rule, class string) []core.Obligation {
 			}
 		}
 		for k, m := range wa.sig.elems {
-			if _, ok := wb.sig.elems[k]; !ok {
+			if _, ok := wb.sig.elems[k]; !ok && m != allow[k] {
 				diff = append(diff, fmt.Sprintf("%s: reference 0, port %d", k, m))
 			}
 		}
@@ -450,6 +538,34 @@ func ruleRefPort(p *core.Program, rule, class string) []core.Obligation {
 			if !wb.sig.consts[k] {
 				diff = append(diff, "constant "+k+" does not occur in the reference")
 			}
+		}
+		// the helpers that are themselves ports are called in the reference's order (coalesce the buckets,
+		// then make them monotonic): compared on the helpers both sides call
+		refName := map[string]string{}
+		for _, q := range pairs {
+			if q.repoPkg == pr.repoPkg && !strings.HasPrefix(q.repoFunc, "@") && !strings.Contains(q.repoFunc, ".") && !strings.Contains(q.refFunc, ".") {
+				refName[q.repoFunc] = q.refFunc
+			}
+		}
+		var po, ro []string
+		inRef := map[string]bool{}
+		for _, n := range *wb.order {
+			inRef[n] = true
+		}
+		inPort := map[string]bool{}
+		for _, n := range *wa.order {
+			if rn, ok := refName[n]; ok && inRef[rn] {
+				po = append(po, rn)
+				inPort[rn] = true
+			}
+		}
+		for _, n := range *wb.order {
+			if inPort[n] {
+				ro = append(ro, n)
+			}
+		}
+		if strings.Join(po, ",") != strings.Join(ro, ",") {
+			diff = append(diff, fmt.Sprintf("ported helpers are called in the order %v, the reference calls them in the order %v", po, ro))
 		}
 		if class == "hints" {
 			// the reference also handles subqueries: only the kinds of integer arithmetic are compared
@@ -473,6 +589,16 @@ func ruleRefPort(p *core.Program, rule, class string) []core.Obligation {
 }
 
 func init() {
+	mutant(Mutant{Rule: "R-REFPORT-AGG", Name: "ungrouped-sum-compensated", File: "execution/aggregate/vector_table.go",
+		Old: "\t\treturn floats.Sum, nil\n", New: "\t\treturn compensatedSum, nil\n",
+		Old2: "func (t *vectorTable) size() int {", New2: "func compensatedSum(in []float64) float64 {\n\tvar sum, c float64\n\tfor _, v := range in {\n\t\tsum, c = function.KahanSumInc(v, sum, c)\n\t}\n\treturn sum + c\n}\n\nfunc (t *vectorTable) size() int {",
+		Old3: "import (\n", New3: "import (\n\t\"github.com/thanos-community/promql-engine/execution/function\"\n", Expect: "vectorized accumulator \"sum\""})
+	mutant(Mutant{Rule: "R-REFPORT-INSTANT", Name: "buckets-made-monotonic-before-merging", File: "execution/function/quantile.go",
+		Old: "\tbuckets = coalesceBuckets(buckets)\n\tensureMonotonic(buckets)\n", New: "\tensureMonotonic(buckets)\n\tbuckets = coalesceBuckets(buckets)\n", Expect: "bucketQuantile"})
+	mutant(Mutant{Rule: "R-REFPORT-SELECT", Name: "staleness-test-on-the-sought-sample", File: "execution/scan/vector_selector.go",
+		Old: "\t\tt, v = it.At()\n", New: "\t\tt, v = it.At()\n\t\tif value.IsStaleNaN(v) {\n\t\t\treturn 0, 0, false, nil\n\t\t}\n", Expect: "selectPoint"})
+	mutant(Mutant{Rule: "R-REFPORT-BINARY", Name: "nan-scalar-fast-path", File: "execution/binary/scalar.go",
+		Old: "\t\t\toperands := o.getOperands(vector, i, scalarVal)\n", New: "\t\t\tif math.IsNaN(scalarVal) && !o.returnBool {\n\t\t\t\tcontinue\n\t\t\t}\n\t\t\toperands := o.getOperands(vector, i, scalarVal)\n", Expect: "scalarOperator.Next"})
 	mutant(Mutant{Rule: "R-REFPORT-RANGE", Name: "stddev-sample-variance", File: "execution/function/functions.go",
 		Old: "\treturn math.Sqrt((aux + cAux) / count)\n", New: "\treturn math.Sqrt((aux + cAux) / count * (count / (count - 1)))\n", Expect: "stddevOverTime"})
 }
@@ -621,6 +747,7 @@ func ruleRefAggArms(p *core.Program, rule string) []core.Obligation {
 			continue
 		}
 		wa, wb := newRefWalker(rp), newRefWalker(ref)
+		wa.module = p.ByPath
 		for _, n := range ra {
 			wa.walk(n)
 		}
@@ -634,6 +761,50 @@ func ruleRefAggArms(p *core.Program, rule string) []core.Obligation {
 				"the accumulator no longer makes the decisions of the reference arm parser."+tok+" ("+strings.Join(diff, "; ")+"); S(a,b): a<b or its negation, f: float operands, M: function of package math"))
 		} else {
 			obs = append(obs, core.Ob(rule, key, site, "makeAccumulatorFunc", core.Held, "same decision signature as the reference arm: "+wa.sig.String()))
+		}
+	}
+	// the accumulators of aggregations without grouping labels (one value per step, computed from the
+	// step's sample slice): the arms that are ports of the reference arm. max/min delegate to gonum and
+	// avg divides a plain sum (the reference keeps an incremental mean): not compared.
+	if vecFn := findRefBody(rp, "newVectorAccumulator"); vecFn != nil {
+		for _, spelling := range []string{"sum", "count", "group"} {
+			key := fmt.Sprintf("execution/aggregate vectorized accumulator %q decides like the reference arm", spelling)
+			tok := ""
+			for _, name := range vocab.aggregators {
+				if vocab.tokenString[name] == spelling {
+					tok = name
+				}
+			}
+			ra := caseBodies(vecFn, func(e ast.Expr) bool {
+				bl, ok := e.(*ast.BasicLit)
+				return ok && bl.Kind == token.STRING && bl.Value == `"`+spelling+`"`
+			})
+			rb := caseBodies(refFn, func(e ast.Expr) bool {
+				se, ok := e.(*ast.SelectorExpr)
+				return ok && se.Sel.Name == tok
+			})
+			if tok == "" || len(ra) == 0 || len(rb) == 0 {
+				obs = append(obs, core.Ob(rule, key, "-", "", core.Lost, fmt.Sprintf("arm not found (repo %d statements, reference %d)", len(ra), len(rb))))
+				continue
+			}
+			wa, wb := newRefWalker(rp), newRefWalker(ref)
+			wa.module = p.ByPath
+			for _, n := range ra {
+				wa.walk(n)
+			}
+			for _, n := range rb {
+				wb.walk(n)
+			}
+			// the arm of a constant (count adds 1 per sample in the reference, the port takes the length;
+			// group is the constant 1 on both sides): constants are not compared, decisions are
+			wa.sig.consts, wb.sig.consts = map[string]bool{}, map[string]bool{}
+			diff := sigDiff(wa.sig, wb.sig, nil)
+			if len(diff) > 0 {
+				obs = append(obs, core.Ob(rule, key, p.Pos(ra[0].Pos()), "newVectorAccumulator", core.Violated,
+					"the accumulator no longer makes the decisions of the reference arm parser."+tok+" ("+strings.Join(diff, "; ")+"): aggregations with and without grouping labels, and the reference, disagree"))
+			} else {
+				obs = append(obs, core.Ob(rule, key, p.Pos(ra[0].Pos()), "newVectorAccumulator", core.Held, "same decision signature as the reference arm: "+wa.sig.String()))
+			}
 		}
 	}
 	// topk / bottomk: the admission test of kAggregate.aggregate against the TOPK and the BOTTOMK arm (both
@@ -659,6 +830,7 @@ func ruleRefAggArms(p *core.Program, rule string) []core.Obligation {
 			continue
 		}
 		wa, wb := newRefWalker(rp), newRefWalker(ref)
+		wa.module = p.ByPath
 		wa.walk(a)
 		for _, n := range bs {
 			wb.walk(n)
